@@ -55,7 +55,7 @@ func TestVerifC13(t *testing.T) {
 		c13EndpointRetryFamily(m)
 		c13EndpointLateCleanup(m)
 		c13HandlePktFlows(m)
-		m.Require("b_herd_rounds", "b_mixed_rounds", "b_deadwindow_rounds", "b_deadwindow_dead_endpoint_still_in_table", "b_hook_uep1", "b_hook_uep2", "b_stalecreate_replaced", "b_stalecreate_survived_with_traffic",
+		m.Require("b_herd_rounds", "b_mixed_rounds", "b_deadwindow_rounds", "b_deadwindow_dead_endpoint_still_in_table", "b_hook_uep1", "b_hook_uep2", "b_stalecreate_replaced", "b_stalecreate_survived_with_traffic", "b_stalecreate_rounds_over_ipv6", "b_stalecreate_get_refused_stale_endpoint",
 			"b_calls_created", "b_calls_reused", "b_calls_dial_error", "b_calls_negative_cache", "b_mixed_invalidations",
 			"b_negexp_marker_expired_in_place", "b_janitor_identity_judged", "b_janitor_idle_endpoints_closed_by_janitor", "b_non_packet_conns",
 			"b_retry_rounds", "b_retry_family_switched_endpoints", "b_retry_dialer_switched_endpoints", "b_retry_own_type_invalidated_before_traffic_after_switch",
